@@ -5,6 +5,7 @@ Family A - who / what / where rules on the resolved Python program.
 from __future__ import annotations
 
 import ast
+import re
 from typing import Any, Dict, List, Optional, Set, Tuple
 
 from .callgraph import CG, RaiseSite, Unit
@@ -276,8 +277,17 @@ def a2(repo: Repo) -> RuleResult:
             for fi in ci.methods.values():
                 if (fi.rel, fi.qual) in mapped:
                     continue
-                ends = [st for st in fi.node.body if isinstance(st, ast.Raise) and "InternalError" in src_of(st)]
-                has_chain = any(isinstance(st, ast.If) and "isinstance(" in src_of(st.test) for st in fi.node.body)
+                ends = [st for st in ast.walk(fi.node) if isinstance(st, ast.Raise) and "InternalError" in src_of(st)]
+                ast_names = {c.name for c in m.all_classes() if c.rel.endswith("_ast.py")}
+
+                def _node_test(t: ast.AST) -> bool:
+                    for c_ in ast.walk(t):
+                        if isinstance(c_, ast.Call) and isinstance(c_.func, ast.Name) and c_.func.id == "isinstance" and len(c_.args) == 2:
+                            if any(isinstance(x, ast.Name) and x.id in ast_names for x in ast.walk(c_.args[1])):
+                                return True
+                    return False
+
+                has_chain = any(isinstance(st, ast.If) and _node_test(st.test) for st in ast.walk(fi.node))
                 if ends and has_chain:
                     res.unsure(f"A2: unmapped dispatch {fi.rel}:{fi.qual} ends in InternalError; extend DISPATCH_SITES by hand")
     repo.cache["A2.discharged"] = discharged
@@ -311,7 +321,9 @@ TAINT_MARKERS = ("p[", "t.value", ".fields()", ".sorted_fields()", ".value", "s[
 
 def _site_key(s: RaiseSite) -> str:
     c = s.detail if s.kind != "raise" else s.detail
-    return f"A1|{s.file}|{s.unit.fn.qual}|{s.exc}|{short(c, 100)}"
+    from .rules_b import norm_belief_key
+
+    return norm_belief_key(f"A1|{s.file}|{s.unit.fn.qual}|{s.exc}|{short(c, 100)}")
 
 
 def _auto_discharge(cg: CG, s: RaiseSite) -> Optional[str]:
@@ -825,6 +837,14 @@ ORDER_MARKERS = {
     "py-dataclass-fields": ("impls/py/renderer.py", "{self.message_field_name}: {self.message_field_type} ="),
     "go-struct-fields": ("impls/go/renderer.py", "`json:"),
 }
+# the same markers on emitted text (holes are emit.HOLE)
+ORDER_EMITTED = {
+    "py-processor-list": r"bp\.MessageFieldProcessor\(",
+    "go-processor-list": r"bp\.NewMessageFieldProcessor\(",
+    "c-descriptor-array": r"BpMessageFieldDescriptor\(",
+    "py-dataclass-fields": r"^\{self\.message_field_name\}: (Union\[int, \{[^}]*\}\]|\{[^}]*\}) = ",
+    "go-struct-fields": "`json:",
+}
 
 
 def _fstrings_of(fn: ast.AST) -> str:
@@ -929,9 +949,14 @@ def a4(repo: Repo) -> RuleResult:
     for label, (relsfx, marker) in ORDER_MARKERS.items():
         mod = m.mod(relsfx)
         item_classes = []
+        from .emit import class_emissions
+
+        em = class_emissions(repo, relsfx, named=True)
         for ci in mod.classes.values():
             r = ci.methods.get("render")
-            if r is not None and marker in _fstrings_of(r.node):
+            if r is None:
+                continue
+            if marker in _fstrings_of(r.node) or any(re.search(ORDER_EMITTED[label], t) for t in em.get(ci.name, ())):
                 item_classes.append(ci.name)
         if not item_classes:
             res.unsure(f"A4: no item class emitting `{marker}` found in {relsfx} (order-sensitive site {label} vanished)")
